@@ -5,7 +5,23 @@ HERE = os.path.dirname(os.path.dirname(os.path.abspath(__file__)))
 
 # id -> (engine, category, technique, level text, level note, design ref)
 SCOPE_NOTE = "quick: all 818 976 grammars of G(2,2,3,3) (2 nonterminals, 2 terminals, <=3 productions of length <=3; unreachable, unproductive, nullable, cyclic, ambiguous ones included) plus the 1-edit neighbourhoods of 11 seed grammars (LALR-not-SLR, LR(1)-not-LALR, dangling else, expression grammars, ...); thorough adds G(2,3,4,2), G(3,2,4,2), G(2,2,4,3)/sym, G(1,3,4,3), G(3,3,3,2)/sym and 2-edit neighbourhoods. Every grammar is rendered under a rotating presentation (struct/enum, named/tuple, `_` fields, declaration order, naming order)."
+REAL_NOTE = "Real-code layer: every accepted grammar of G(2,2,3,2)/sym (quick; thorough: G(2,2,3,2), G(1,2,3,3), G(2,2,2,3), G(2,3,3,2), G(3,2,3,2), 1-edit neighbourhoods of the seeds) is emitted by the real generate, compiled by rustc and its real parse is run on every word of the input trie (depth 7 for 2 terminals) through a lazy counting iterator, a constant-payload iterator and a Vec, under catch_unwind with a time limit. Model layer: an interpreter of the tables and reduce-function facts extracted from the emitted text explores all configurations over the tries of every accepted grammar of the C04 scopes in lock-step with the reference LR(1) driver and Earley; it is bound to the code by comparing its trace with the real observation on every (grammar, word) of the real-code scope; if it diverges or cannot be extracted it is declared unbound and only the real layer decides."
 CHECKS = {
+ "C01": ("E2 pda + E3 rustc-run", "model_checking",
+         "explicit-state exploration of the emitted parser's configurations over input tries (model bound to code by trace replay) plus exhaustive runs of the rustc-compiled real parse",
+         "Ok iff the token sequence is derivable (Earley over the declared productions), no panic, termination, payload independence. " + REAL_NOTE,
+         "Earley recogniser and canonical LR(1) driver as references (cross-checked against each other on every explored word); rustc.",
+         "DESIGN.md section 3, C01"),
+ "C02": ("E3 rustc-run", "model_checking",
+         "exhaustive runs of the rustc-compiled real parse over input tries; returned trees compared with the validated reference derivation",
+         "For every sentence explored, the {:?} rendering of the tree returned by the real compiled parse (payload = input position) equals the rendering of the unique reference derivation tree (built by the reference LR(1) driver, validated by an independent derivation checker): right constructor per node, non-underscore fields in declaration order, boxed subtrees, original payloads, each token exactly once. " + REAL_NOTE,
+         "reference LR(1) driver + derivation checker; derive(Debug) output format of rustc 1.95.",
+         "DESIGN.md section 3, C02"),
+ "C03": ("E2 pda + E3 rustc-run", "model_checking",
+         "explicit-state exploration of the emitted parser's configurations over input tries (model bound to code by trace replay) plus exhaustive runs of the rustc-compiled real parse with a counting iterator",
+         "For every non-sentence explored: Err(Some(t)) carries the very token (kind and payload = index) at the index where the reference canonical LR(1) driver stops, Err(None) exactly when it stops at end of input, and the counting iterator saw at most index+1 calls to next(). " + REAL_NOTE,
+         "canonical LR(1) driver as reference (equal to Earley non-viability when all nonterminals are productive, which is self-checked).",
+         "DESIGN.md section 3, C03"),
  "C04": ("E1 gramsweep", "model_checking",
          "bounded-exhaustive exploration of program scopes: real generate vs. reference LALR(1) automaton (canonical LR(1) merged by core)",
          "For every grammar of the scopes the real kiki::generate is executed and its Ok/TableConflict verdict is compared with the conflict-freeness of the reference LALR(1) automaton; any other outcome on a well-formed file is a violation. The reference is cross-checked on every grammar against an independent LR(0)+lookahead-propagation construction and against SLR/LR(1) containment. " + SCOPE_NOTE,
